@@ -345,10 +345,17 @@ def stream_oracle(ctx, img, family, rng, fails, budget_pokes=2):
         if pokes < budget_pokes and rng.random() < 0.2:
             q = insp_impl.poke
             pokes += 1
-        c, full, i = G.impl_run(fmt, data, sizes, query=q)
-        bs = G.bad_slices(i, data)
+        mid = []
+        watch = None
+        if len(sizes) <= 48:            # also after every chunk, not only at the end
+
+            def watch(insp, pos, mid=mid):
+                if not mid:
+                    mid.extend(G.bad_slices(insp, data))
+        c, full, i = G.impl_run(fmt, data, sizes, query=q, every_chunk=watch)
+        bs = G.bad_slices(i, data) or mid
         if bs:
-            small = G.shrink_cuts(n, sizes, lambda s: bool(G.bad_slices(G.impl_run(fmt, data, s)[2], data)))
+            small = G.shrink_cuts(n, sizes, lambda s: slices_bad_anytime(fmt, data, s))
             fails.append(make_failure(img, ref_sizes, small, 'retained-not-stream-slice',
                                       'region %s retained bytes that are not stream[offset:offset+len]' % bs))
             return
@@ -364,6 +371,16 @@ def stream_oracle(ctx, img, family, rng, fails, budget_pokes=2):
             fails.append(make_failure(img, ref_sizes, small, 'verdict-depends-on-chunking',
                                       '512-byte blocks: %s | %d chunk(s) %s: %s' % (ref, len(small), G.pack_sizes(small)[:8], c)))
             return
+
+
+def slices_bad_anytime(fmt, data, sizes):
+    mid = []
+
+    def watch(insp, pos):
+        if not mid:
+            mid.extend(G.bad_slices(insp, data))
+    i = G.impl_run(fmt, data, sizes, every_chunk=watch if len(sizes) <= 48 else None)[2]
+    return bool(mid or G.bad_slices(i, data))
 
 
 def wrap_core(line):
@@ -601,7 +618,8 @@ def replay(ctx, payload):
     bad = []
     if kind == 'insp':
         for name in ('sizes_a', 'sizes_b'):
-            bad += G.bad_slices(G.impl_run(case['fmt'], data, G.unpack_sizes(case[name]))[2], data)
+            if slices_bad_anytime(case['fmt'], data, G.unpack_sizes(case[name])):
+                bad.append(name)
     differs = cores[0] != cores[1]
     print('property oracle on the implementation: verdict %s across the two chunkings; regions that are not stream slices: %s'
           % ('DIFFERS' if differs else 'equal', bad or 'none'))
